@@ -583,6 +583,126 @@ def rule_r6(F, rep):
     rep.floor(R, n, 3, "State::BinaryRhs constructions")
 
 
+def rule_r7(F, rep):
+    R = rep.rule("C15.R7", "object body / comprehension disambiguation: parse_obj_inside hands its members to make_comp only when make_comp "
+                 "accepts every one of them — for each member shape (object local; assert; field by name kind x plain/method x "
+                 "visibility) and each short sequence of members, if the member loop can reach the `make_comp(..)` call having parsed "
+                 "exactly those members, then make_comp walked over the same members reaches no `unreachable!()` / failed assertion. "
+                 "The two sites must agree on which bodies may become a comprehension; a disagreement is a parser panic on a "
+                 "malformed comprehension instead of a syntax error")
+    POI = "<%s>::parse_obj_inside" % PARSER
+    fn = F.fn(POI)
+    mk = F.fn_opt(POI + "::make_comp")
+    if mk is None:
+        raise kwalk.WalkLimit("parse_obj_inside: no separate make_comp to cross-check")
+    rep.fn(fn, mk)
+    FIELD = "rsjsonnet_lang::ast::Field"
+    FNAME = "rsjsonnet_lang::ast::FieldName"
+    MEMBER = "rsjsonnet_lang::ast::Member"
+    VIS = "rsjsonnet_lang::ast::Visibility"
+    RESULT = "core::result::Result"
+    fvars = {v["n"]: v for v in F.adt(FIELD)["variants"]}
+
+    def idx_of(variant, adt):
+        # position of the payload field of a given ADT type inside a Field variant
+        for i, f in enumerate(fvars[variant]["fields"]):
+            t = F.adt(FIELD)["_crate"].types[f["t"]]
+            if t["k"] == "adt" and t["d"] == adt:
+                return i
+        raise kwalk.WalkLimit("Field::%s has no %s payload" % (variant, adt))
+    shapes = [("Local",), ("Assert",)]
+    for fv in fvars:
+        for nk in F.variants(FNAME):
+            for vis in F.variants(VIS):
+                shapes.append(("Field", fv, nk, vis))
+    good = [sh for sh in shapes if sh[0] == "Field" and sh[1] == "Value" and sh[2] == "Expr" and sh[3] == "Default"]
+    scripts = [(sh,) for sh in shapes] + [(("Local",), sh) for sh in shapes if sh[0] == "Field"]
+    if good:
+        scripts += [(good[0], sh) for sh in shapes] + [(good[0], ("Local",), good[0])]
+
+    def set_field(env, pre, sh):
+        env[pre] = ("var", FIELD, sh[1])
+        env["%s@%s.%d" % (pre, sh[1], idx_of(sh[1], FNAME))] = ("var", FNAME, sh[2])
+        env["%s@%s.%d" % (pre, sh[1], idx_of(sh[1], VIS))] = ("var", VIS, sh[3])
+
+    def producer(script):
+        def hook(w, bb, t, env, args):
+            if w.pre:
+                return None
+            nm = (callee_name(t) or "").rsplit("::", 1)[-1]
+            dst = w.norm(env, t["dst"])
+            k = env.get("#iter", 0)
+            if nm == "maybe_parse_obj_local":
+                k += 1
+                env["#iter"] = k
+            if nm in ("maybe_parse_obj_local", "maybe_parse_field", "maybe_parse_assert"):
+                want = {"maybe_parse_obj_local": "Local", "maybe_parse_field": "Field", "maybe_parse_assert": "Assert"}[nm]
+                sh = script[k - 1] if 1 <= k <= len(script) else None
+                if sh is not None and sh[0] == want:
+                    env["%s@Ok.0" % dst] = ("var", OPTION, "Some")
+                    if want == "Field":
+                        set_field(env, "%s@Ok.0@Some.0" % dst, sh)
+                else:
+                    env["%s@Ok.0" % dst] = ("var", OPTION, "None")
+                return ("var", RESULT, "Ok")
+            return None
+
+        def on_term(w, bb, t, env):
+            if not w.pre and t["k"] == "call" and (callee_name(t) or "").endswith("::make_comp"):
+                return (kwalk.STOP, ("comp", env.get("#iter", 0)))
+            return None
+        w = kwalk.Walker(F, fn.body, call_result=hook, on_term=on_term, max_states=300000)
+        outs = w.run(0, {})
+        rep.states += w.states_explored
+        return any(("comp", len(script)) in marks for kind, marks, _ in outs)
+
+    def consumer(script):
+        def hook(w, bb, t, env, args):
+            nm = callee_name(t) or ""
+            if nm.endswith("Iterator>::next") and not w.pre:
+                k = env.get("#iter", 0)
+                dst = w.norm(env, t["dst"])
+                if k < len(script):
+                    env["#iter"] = k + 1
+                    sh = script[k]
+                    env["%s@Some.0" % dst] = ("var", MEMBER, sh[0])
+                    if sh[0] == "Field":
+                        set_field(env, "%s@Some.0@Field.0" % dst, sh)
+                    return ("var", OPTION, "Some")
+                return ("var", OPTION, "None")
+            return None
+
+        def on_term(w, bb, t, env):
+            if t["k"] == "call" and (callee_name(t) or "").startswith("core::panicking::"):
+                x = t["xs"][0] if t["xs"] else {}
+                return (kwalk.STOP, ("panic", str(x.get("str") or x.get("s") or "")[:60]))
+            return None
+        w = kwalk.Walker(F, mk.body, call_result=hook, on_term=on_term, max_states=100000)
+        outs = w.run(0, {})
+        rep.states += w.states_explored
+        return sorted({m[1] for kind, marks, _ in outs for m in marks if m[0] == "panic"})
+    n = 0
+    reach_any = False
+    for script in scripts:
+        if not any(sh[0] == "Field" for sh in script):
+            allowed = producer(script)
+        else:
+            allowed = producer(script)
+        reach_any = reach_any or allowed
+        panics = consumer(script) if allowed else []
+        n += 1
+        name = " , ".join("/".join(sh) for sh in script)
+        ok = not panics
+        rep.ob(R, "members|%s" % name, ok, {"members": name, "may become a comprehension": allowed, "make_comp panics": panics} if allowed else None)
+        if not ok:
+            rep.violation(R, "%s|comp-disagreement|%s" % (POI, name), "an object body with the members [%s] followed by `for` reaches "
+                          "make_comp, which does not accept them (%s): the parser panics instead of reporting a syntax error"
+                          % (name, panics[0]), fn.loc)
+    rep.floor(R, n, 30, "member sequences")
+    if not reach_any:
+        raise kwalk.WalkLimit("parse_obj_inside: the walk never reaches make_comp (shape not understood)")
+
+
 def run(F, rep, tier):
     rep.attempt(rule_r1, F, rep)
     rep.attempt(rule_r2, F, rep)
@@ -590,6 +710,7 @@ def run(F, rep, tier):
     rep.attempt(rule_r4, F, rep)
     rep.attempt(rule_r5, F, rep)
     rep.attempt(rule_r6, F, rep)
+    rep.attempt(rule_r7, F, rep)
     rep.assume("print/re-parse stability is not decided (no printer exists in the repository); node span containment "
                "is not decided")
     return EXPLANATION
